@@ -182,6 +182,24 @@ def replay_kernel(c: Contract, obligation: str, model: dict):
     if not _all_finite(res):
         info.update(reproduced=True, reason="the real function returns a non-finite value at this input")
         return info
+    if "no overflow" in obligation and c.boxes:
+        # the model only has to exceed the proof bound (700); float64 overflows at 709.8: look for a failing input at the
+        # corners of the contract's domain, starting from the model
+        import itertools
+        boxes = c.boxes(a)
+        names = sorted(boxes)
+        for corner in itertools.islice(itertools.product(*[(boxes[k][1], boxes[k][0]) for k in names]), 128):
+            env2 = dict(env)
+            env2.update({k: Fraction(str(v)) for k, v in zip(names, corner)})
+            nat2 = _to_native(a, env2)
+            try:
+                r2 = (getattr(inst, fn.__name__)(**nat2) if is_method else (getattr(owner, fn.__name__)(**nat2) if owner is not None else getattr(importlib.import_module(fn.__module__), fn.__name__)(**nat2)))
+            except Exception:
+                continue
+            if not _all_finite(r2):
+                info.update(native_inputs=_jsonable(nat2), native_result=_jsonable(r2), reproduced=True,
+                            reason="the real function returns a non-finite value at this corner of the contract's domain (exp overflow)")
+                return info
     part = obligation.split(":", 1)[1] if ":" in obligation else obligation
     ens = None
     for name, e in c.ensures.items():
